@@ -30,23 +30,36 @@ RESOLVE_ONE_STEP = Ext(
 )
 
 MODELS_PROTECT = ["list(models)"]
+ENDED = "not hasattr(models[j], '_tx_reference_resolver')"
+ALL_ENDED = f"forall(lambda j: implies(0 <= j and j < len(models), {ENDED}))"
 
 Unit(
     "model.main-model-phase",
     target="textx/model.py::parse_tree_to_objgraph",
     region="if:is_main_model",
-    props=["C09", "C13", "C18"],
+    props=["C09", "C13", "C14", "C15", "C18"],
     params={"is_main_model": "any", "model": "any", "parser": "obj:TextXModelParser"},
     calls={
         "get_included_models": Ext("get_included_models", returns="list", raises=None, pure=True,
                                    note="all models of the owning model's repository plus the model itself"),
         "m._tx_reference_resolver.resolve_one_step": RESOLVE_ONE_STEP,
         "m._tx_parser.pos_to_linecol": Ext("pos_to_linecol", returns="tuple", raises=None, pure=True),
-        "_end_model_construction": Ext("end_model_construction", returns="none",
-                                       note="ends construction of one model: restores user classes, runs user __init__"),
+        "_end_model_construction": Ext(
+            "end_model_construction", returns="none",
+            ensures=["not hasattr(a0, '_tx_reference_resolver')"],
+            protect=["ATTR:_tx_reference_resolver except a0"],
+            note="ends construction of one model: removes its under-construction marker, restores user classes, "
+                 "runs user __init__ (assumed: user __init__ does not put the marker on any model)"),
         "get_children_of_type": Ext("get_children_of_type", returns="list", pure=True, raises=None),
         "parser.dprint": Ext("dprint", pure=True, raises=None, returns="none"),
-        "call_obj_processors": Ext("call_obj_processors", note="depth-first object processors of one model"),
+        "call_obj_processors": Ext(
+            "call_obj_processors",
+            # C13/C14: when object processors start, EVERY model of the load has ended construction
+            # (all references resolved, every user __init__ done)
+            requires=[("C13-C14-every-model-of-the-load-has-ended-construction", ALL_ENDED, "C13|C14")],
+            protect=["ATTR:_tx_reference_resolver"],
+            note="depth-first object processors of one model (contracts/c13.py); assumed: processors do not put the "
+                 "under-construction marker on a model"),
         "remove_models_from_repositories": Ext(
             "remove_models_from_repositories", raises=None, returns="none",
             note="removes the given models from every repository that may hold them (scoping/__init__.py)"),
@@ -64,8 +77,10 @@ Unit(
                  "pending() == at('loop_entry', pending()) - resolved_count"]),
         "for:models#2": Loop(modifies=["*"], inv=[], body_unit="model.unresolvable-error.per-model", step=False),
         "for:models#3": Loop(pure=True, inv=[]),
-        "for:models#4": Loop(modifies=["*"], protect=MODELS_PROTECT, inv=[]),
-        "for:models#5": Loop(modifies=["*"], protect=MODELS_PROTECT, inv=[]),
+        "for:models#4": Loop(modifies=["*"], protect=MODELS_PROTECT,
+                             inv=[f"forall(lambda j: implies(0 <= j and j < _i, {ENDED}))"]),
+        "for:models#5": Loop(modifies=["*"], protect=MODELS_PROTECT + ["ATTR:_tx_reference_resolver"],
+                             inv=[ALL_ENDED]),
     },
     ensures=[
         ("C09-C13-success-only-when-nothing-is-left-postponed",
@@ -77,9 +92,9 @@ Unit(
         ("C18-every-model-of-this-load-is-removed-on-failure",
          "n_calls('remove_models_from_repositories') == 1"
          " and evn('remove_models_from_repositories', 0).args[0] == final_models"
-         " and evn('remove_models_from_repositories', 0).args[1] == final_models", "C18"),
+         " and evn('remove_models_from_repositories', 0).args[1] == final_models", "C15|C18"),
         ("C18-removal-is-the-last-thing-done",
-         "evpos('remove_models_from_repositories', 0) == n_calls() - 1", "C18"),
+         "evpos('remove_models_from_repositories', 0) == n_calls() - 1", "C15|C18"),
     ]},
     canary="n_calls('remove_models_from_repositories') == 1",
 )
